@@ -89,6 +89,16 @@ theorem respondX_legacy (r : Req) (emptyTag : Text) : respondX (lift r emptyTag)
 
 /-! ### the script -/
 
+theorem runStep_ifRange (r : ReqX) (x : Option Text) (st : HState) (s : Step) :
+    runStep { r with ifRange := x } st s = runStep r st s := by
+  cases s <;> rfl
+
+theorem runScript_ifRange (r : ReqX) (x : Option Text) (ss : List Step) (st : HState) :
+    runScript { r with ifRange := x } ss st = runScript r ss st := by
+  induction ss generalizing st with
+  | nil => rfl
+  | cons s ss ih => simp only [runScript, runStep_ifRange, ih]
+
 /-- a `gen` request: run the full script; the first step that does not pass decides -/
 theorem flow_gen_run (r : ReqX) (hk : r.base.kind = .gen) :
     respondX r = outcome r (runScript r (fullScript r) (initState r)) := by
@@ -337,7 +347,7 @@ def streamed304 : ReqX :=
   ⟨{ kind := .gen, getHead := true, isHead := false, proto11 := true, lenKnown := true,
      baseStatus := 304, callSince := false, etagsOn := false, autotags := false, handlerEtag := none,
      autoTag := [], lastmod := none, im := [], inm := [], ims := none, ius := none, range := none,
-     content := [1, 2, 3] }, true, [], []⟩
+     content := [1, 2, 3] }, true, [], [], none⟩
 
 /-- the unrestricted statement is false for the code as it is: `finalize` tests `self.stream` before
     the statuses that have no body (replayed on the real code as a corpus case; the oracle treats a
@@ -550,6 +560,60 @@ theorem flow_file_stream (r : ReqX) (hk : r.base.kind = .file) :
       · exact ⟨rfl, rfl, rfl, rfl, fun _ => rfl⟩
       · exact ⟨rfl, rfl, rfl, rfl, fun _ => rfl⟩
 
+/-! ### handlers that choose 304 / 412 themselves -/
+
+/-- `validate_since` on a response that already is 304: If-Unmodified-Since is not looked at, a matching
+    If-Modified-Since re-raises 304 (412 for other methods) -/
+theorem since_on_304 (lm : Option Text) (gh : Bool) (ius ims : Option Text) :
+    validateSince lm 304 gh ius ims = if sinceHolds lm ims then nmVerdict gh else .pass := by
+  unfold validateSince sinceHolds nmVerdict
+  cases hl : truthy lm <;> simp [is2xx]
+
+/-- … and on a response that already is 412: only a failing If-Unmodified-Since re-raises (412) -/
+theorem since_on_412 (lm : Option Text) (gh : Bool) (ius ims : Option Text) :
+    validateSince lm 412 gh ius ims = if sinceFails lm ius then .precondFailed else .pass := by
+  unfold validateSince sinceFails
+  cases hl : truthy lm <;> simp [is2xx]
+
+/-- a handler that answers 304 or 412 by itself gets 304 or 412, whatever its script does -/
+theorem flow_handler_304_412 (r : ReqX) (hk : r.base.kind = .gen)
+    (hb : r.base.baseStatus = 304 ∨ r.base.baseStatus = 412) :
+    (respondX r).status = 304 ∨ (respondX r).status = 412 := by
+  rw [flow_gen_run r hk]
+  unfold outcome
+  split
+  · rename_i v e _
+    cases v <;> simp [conditionalResp]
+  · simpa [plainRespX_status] using hb
+
+/-- **whenever a step raises, the entity is gone** — whoever chose the status before, streamed or not: the
+    response body is empty (304, HEAD) or the error page (412), never the handler's body -/
+theorem flow_raise_discards_entity (r : ReqX) (hk : r.base.kind = .gen) (v : Verdict) (e : Option Text)
+    (h : runScript r (fullScript r) (initState r) = .raised v e) :
+    (respondX r).body = .empty ∨ (respondX r).body = .errorPage := by
+  rw [flow_gen_run r hk, h]
+  unfold outcome finish
+  simp only
+  split
+  · exact Or.inl rfl
+  · cases v <;> simp [conditionalResp]
+
+/-- **If-Range is ignored**: whatever the header says (a matching or a stale entity tag, a date, garbage), the
+    answer is the same — in particular a satisfiable Range still yields its 206 (compared on every run with the
+    real code, which never reads the header) -/
+theorem respondX_ignores_ifRange (r : ReqX) (x : Option Text) : respondX { r with ifRange := x } = respondX r := by
+  have h1 : ∀ s e, servedRespX { r with ifRange := x } s e = servedRespX r s e := by
+    intro s e; cases s <;> rfl
+  have h2 : ∀ st e, plainRespX { r with ifRange := x } st e = plainRespX r st e := fun _ _ => rfl
+  have h3 : ∀ o, outcome { r with ifRange := x } o = outcome r o := by
+    intro o; cases o <;> rfl
+  cases hk : r.base.kind
+  · simp only [respondX, hk, etagPhaseX]
+    have e1 : servedRespX { r with ifRange := x } = servedRespX r := by funext s e; exact h1 s e
+    have e2 : plainRespX { r with ifRange := x } = plainRespX r := by funext s e; exact h2 s e
+    rw [e1, e2]
+  · simp only [respondX, hk, h3, fullScript, initState, runScript_ifRange]
+
 /-! ### non-vacuity -/
 
 def flowExample : ReqX :=
@@ -557,7 +621,7 @@ def flowExample : ReqX :=
      baseStatus := 200, callSince := false, etagsOn := false, autotags := false, handlerEtag := none,
      autoTag := "\"t\"".toList, lastmod := some "D".toList, im := [], inm := ["\"t\"".toList],
      ims := some "D".toList, ius := none, range := none, content := [1, 2, 3] },
-   true, [.body, .etags true, .since], "\"e\"".toList⟩
+   true, [.body, .etags true, .since], "\"e\"".toList, none⟩
 
 -- a streamed handler that validates after producing its body: 304, nothing delivered
 example : respondX flowExample = ⟨304, none, none, some "\"t\"".toList, .empty⟩ := by decide
